@@ -199,8 +199,19 @@ func ops16(h *hist16) []op16 {
 			if err := blk.WriteBlock(w, h.rev, []proto.InputColumn{{Name: "col", Data: h.col.C}}); err != nil {
 				return err
 			}
-			_, err := w.Flush()
-			return err
+			if _, err := w.Flush(); err != nil {
+				return err
+			}
+			// whatever state the column is in, the vectored path writes what the buffer path writes
+			eb := proto.Buffer{}
+			blk2 := proto.Block{Columns: 1, Rows: h.col.C.Rows()}
+			if err := blk2.EncodeBlock(&eb, h.rev, []proto.InputColumn{{Name: "col", Data: h.col.C}}); err != nil {
+				return err
+			}
+			if !bytes.Equal(sink.got, eb.Buf) {
+				return fmt.Errorf("WriteBlock+Flush gives %d bytes, EncodeBlock %d (first difference at %d)", len(sink.got), len(eb.Buf), firstDiff(sink.got, eb.Buf))
+			}
+			return nil
 		}},
 		{"decode0", func(h *hist16) error { return h.decode(nil, false) }},
 		{"decode2", func(h *hist16) error { return h.decode(h.dec[0], false) }},
